@@ -227,11 +227,11 @@ Proof.
   destruct H as [<-|H]; cbn; [lia|]. specialize (IH _ _ H). lia.
 Qed.
 
-Lemma conv_all_length : forall d vs vs', conv_all d vs = Ok vs' -> List.length vs' = List.length vs.
+Lemma conv_all_length : forall fl d vs vs', conv_all_gen fl d vs = Ok vs' -> List.length vs' = List.length vs.
 Proof.
-  induction vs as [|v vs IH]; intros vs' H; cbn in H.
+  induction vs as [|v vs IH]; intros vs' H; cbn [conv_all_gen] in H.
   - inversion H. reflexivity.
-  - destruct (conv d v); cbn in H; try discriminate. destruct (conv_all d vs); cbn in H; try discriminate.
+  - destruct (conv_gen fl d v); cbn in H; try discriminate. destruct (conv_all_gen fl d vs); cbn in H; try discriminate.
     inversion H. cbn. f_equal. now apply IH.
 Qed.
 
@@ -241,12 +241,13 @@ Proof.
   intros cols nr ro c t off cnt vs puts H p Hp. unfold plan_column in H.
   destruct (colarg_name cols c) as [name| |]; cbn in H; try discriminate.
   set (cnt' := if (cnt =? 0)%Z then zlen vs else cnt) in *.
-  destruct (zlen vs <? cnt')%Z eqn:E0; [discriminate|]. destruct ro; [discriminate|].
+  destruct (zlen vs <? cnt')%Z eqn:E0; [discriminate|].
+  destruct (negb (elt_has_memtype t)); [discriminate|]. destruct ro; [discriminate|].
   destruct (find_col name cols) as [ci|].
-  - destruct (negb (convertible t (col_type cols ci))); [discriminate|].
+  - destruct (negb (convertible (elt_carrier t) (col_type cols ci))); [discriminate|].
     destruct (cnt' =? 0)%Z; [inversion H; subst; contradiction|].
     destruct ((0 <=? off) && (off + cnt' <=? Z.of_nat nr))%Z eqn:E; cbn in H; [|discriminate].
-    destruct (conv_all _ _) as [vs'| |] eqn:Ec; cbn in H; try discriminate. inversion H; subst.
+    destruct (conv_all_gen _ _ _) as [vs'| |] eqn:Ec; cbn in H; try discriminate. inversion H; subst.
     apply col_puts_rows in Hp. apply conv_all_length in Ec. rewrite firstn_length in Ec.
     apply andb_true_iff in E. destruct E as [E1 E2]. apply Z.leb_le in E1. apply Z.leb_le in E2.
     apply Z.ltb_ge in E0. unfold zlen in E0. lia.
@@ -280,8 +281,9 @@ Proof.
   destruct (colarg_name cols c) as [name| |]; cbn in H; try discriminate.
   destruct (match cnt with Some k => Ok k | None => _ end) as [k| |]; cbn in H; try discriminate.
   destruct (negb rs && (zlen pre <? k)%Z); [discriminate|].
+  destruct (negb (elt_has_memtype t)); [discriminate|].
   destruct (find_col name cols) as [ci|] eqn:Ef.
-  - destruct (negb (convertible _ t)); [discriminate|].
+  - destruct (negb (convertible _ _)); [discriminate|].
     destruct (k =? 0)%Z.
     + inversion H; subst; cbn. split; [lia|]. intros ? E; inversion E; subst. eapply find_col_lt; eauto.
     + destruct ((0 <=? off) && (0 <=? k) && (off + k <=? Z.of_nat nr))%Z eqn:E; cbn in H; [|discriminate].
@@ -445,6 +447,12 @@ Proof.
   - (* FColName *)
     unfold ask_frame, sask. rewrite Hf, Ha. cbn [fst snd]. split; [exact R|]. rewrite <- R1.
     destruct (col_name (fr_cols f) i); cbn; auto.
+  - (* FColIdxs *)
+    unfold ask_frame, sask. rewrite Hf, Ha. cbn [fst snd]. split; [exact R|]. rewrite <- R1.
+    destruct (col_indices (fr_cols f) names); cbn; auto.
+  - (* FColNames *)
+    unfold ask_frame, sask. rewrite Hf, Ha. cbn [fst snd]. split; [exact R|]. rewrite <- R1.
+    destruct (col_names (fr_cols f) idxs); cbn; auto.
   - (* FReopen *)
     cbn. rewrite Hf, Ha. split; [|reflexivity]. split; [reflexivity|]. exact Hfr.
 Qed.
@@ -477,12 +485,15 @@ Record wf_frame (f : frame) : Prop := {
 Lemma type_of_mk_int : forall d z, is_int d = true -> type_of (mk_int d z) = d.
 Proof. destruct d; cbn; intros; try discriminate; reflexivity. Qed.
 
-Lemma conv_same : forall v, conv (type_of v) v = Ok v.
-Proof. intros v. unfold conv. now rewrite vtype_eqb_refl. Qed.
+Lemma conv_gen_same : forall fl v, conv_gen fl (type_of v) v = Ok v.
+Proof. intros fl v. unfold conv_gen. now rewrite vtype_eqb_refl. Qed.
 
-Lemma conv_type : forall d v v', supported d = true -> conv d v = Ok v' -> type_of v' = d.
+Lemma conv_same : forall v, conv (type_of v) v = Ok v.
+Proof. exact (conv_gen_same false). Qed.
+
+Lemma conv_gen_type : forall fl d v v', supported d = true -> conv_gen fl d v = Ok v' -> type_of v' = d.
 Proof.
-  intros d v v' Hs H. unfold conv in H.
+  intros fl d v v' Hs H. unfold conv_gen in H.
   destruct (vtype_eqb (type_of v) d) eqn:E.
   - inversion H; subst. now apply vtype_eqb_eq.
   - destruct (convertible (type_of v) d) eqn:Ec; cbn [negb] in H; [|discriminate].
@@ -497,22 +508,41 @@ Proof.
       destruct (int_of v); inversion H; reflexivity.
 Qed.
 
-Lemma conv_all_same : forall d vs, (forall v, In v vs -> type_of v = d) -> conv_all d vs = Ok vs.
+Lemma conv_type : forall d v v', supported d = true -> conv d v = Ok v' -> type_of v' = d.
+Proof. exact (conv_gen_type false). Qed.
+
+Lemma conv_all_gen_same : forall fl d vs, (forall v, In v vs -> type_of v = d) -> conv_all_gen fl d vs = Ok vs.
 Proof.
-  induction vs as [|v vs IH]; intros H; cbn; auto.
-  rewrite <- (H v (or_introl eq_refl)) at 1. rewrite conv_same. cbn.
+  induction vs as [|v vs IH]; intros H; cbn [conv_all_gen]; auto.
+  rewrite <- (H v (or_introl eq_refl)) at 1. rewrite conv_gen_same. cbn [bind].
   rewrite IH by (intros; apply H; now right). reflexivity.
 Qed.
 
-Lemma conv_all_typed : forall d vs vs', supported d = true -> conv_all d vs = Ok vs' ->
+Lemma conv_all_same : forall d vs, (forall v, In v vs -> type_of v = d) -> conv_all d vs = Ok vs.
+Proof. exact (conv_all_gen_same false). Qed.
+
+Lemma conv_all_typed : forall fl d vs vs', supported d = true -> conv_all_gen fl d vs = Ok vs' ->
   forall v, In v vs' -> type_of v = d.
 Proof.
-  induction vs as [|v0 vs IH]; intros vs' Hs H v Hv; cbn in H.
+  induction vs as [|v0 vs IH]; intros vs' Hs H v Hv; cbn [conv_all_gen] in H.
   - inversion H; subst. contradiction.
-  - destruct (conv d v0) eqn:E; cbn in H; try discriminate.
-    destruct (conv_all d vs) eqn:E2; cbn in H; try discriminate. inversion H; subst.
-    destruct Hv as [<-|Hv]; [eapply conv_type; eauto|eapply IH; eauto].
+  - destruct (conv_gen fl d v0) eqn:E; cbn in H; try discriminate.
+    destruct (conv_all_gen fl d vs) eqn:E2; cbn in H; try discriminate. inversion H; subst.
+    destruct Hv as [<-|Hv]; [eapply conv_gen_type; eauto|eapply IH; eauto].
 Qed.
+
+(** for the seven member types the element conversion of a column read is the member conversion *)
+Lemma conv_elt_supported : forall t v, supported t = true -> conv_elt t v = conv t v.
+Proof. intros t v H. destruct t; try discriminate; reflexivity. Qed.
+
+Lemma conv_elt_all_supported : forall t vs, supported t = true -> conv_elt_all t vs = conv_all t vs.
+Proof.
+  induction vs as [|v vs IH]; intros H; [reflexivity|].
+  cbn [conv_elt_all]. rewrite conv_elt_supported, IH by assumption. reflexivity.
+Qed.
+
+Lemma elt_carrier_supported : forall t, supported t = true -> elt_carrier t = t.
+Proof. destruct t; try discriminate; reflexivity. Qed.
 
 (** a batch whose values have their column's type keeps the rows typed *)
 Definition puts_typed (cols : list column) (puts : list put) : Prop :=
@@ -577,12 +607,13 @@ Proof.
   intros cols nr ro c t off cnt vs puts Hs H p Hp. unfold plan_column in H.
   destruct (colarg_name cols c) as [name| |]; cbn in H; try discriminate.
   set (cnt' := if (cnt =? 0)%Z then zlen vs else cnt) in *.
-  destruct (zlen vs <? cnt')%Z; [discriminate|]. destruct ro; [discriminate|].
+  destruct (zlen vs <? cnt')%Z; [discriminate|].
+  destruct (negb (elt_has_memtype t)); [discriminate|]. destruct ro; [discriminate|].
   destruct (find_col name cols) as [ci|] eqn:Ef.
-  - destruct (negb (convertible t (col_type cols ci))); [discriminate|].
+  - destruct (negb (convertible (elt_carrier t) (col_type cols ci))); [discriminate|].
     destruct (cnt' =? 0)%Z; [inversion H; subst; contradiction|].
     destruct (negb _); [discriminate|].
-    destruct (conv_all _ _) as [vs'| |] eqn:Ec; cbn in H; try discriminate. inversion H; subst.
+    destruct (conv_all_gen _ _ _) as [vs'| |] eqn:Ec; cbn in H; try discriminate. inversion H; subst.
     apply col_puts_in in Hp. destruct Hp as [-> Hin]. pose proof (find_col_lt _ _ _ Ef) as Hlt.
     split; [exact Hlt|]. eapply conv_all_typed; eauto.
   - destruct ((cnt' =? 0)%Z || _); [inversion H; subst; contradiction|discriminate].
@@ -720,6 +751,7 @@ Proof.
   intros s f c off Hf [W1 W2 W3] Hu Hc Hoff pre. cbn [fstep]. unfold ask_frame. rewrite Hf. cbn [snd].
   unfold plan_read_column, colarg_name. rewrite (col_name_ok _ _ Hc). cbn [bind].
   destruct (Z.of_nat (nrows f) <? Z.of_nat off)%Z eqn:E1; [apply Z.ltb_lt in E1; lia|]. cbn [bind negb andb].
+  pose proof (W1 c Hc) as Hsup. unfold elt_has_memtype. rewrite (elt_carrier_supported _ Hsup), Hsup. cbn [negb].
   rewrite (Hu c Hc). unfold convertible. rewrite vtype_eqb_refl. cbn [orb negb].
   set (k := (Z.of_nat (nrows f) - Z.of_nat off)%Z).
   assert (Kn : Z.to_nat k = nrows f - off) by (subst k; lia).
@@ -732,7 +764,7 @@ Proof.
   - assert (E3 : ((0 <=? Z.of_nat off) && (0 <=? k) && (Z.of_nat off + k <=? Z.of_nat (nrows f)))%Z = true).
     { rewrite !andb_true_iff, !Z.leb_le. subst k. lia. }
     rewrite E3. cbn [negb bind rp_src rp_k rp_off rp_pre]. unfold finish_read. cbn [rp_src rp_k rp_off rp_pre].
-    rewrite Kn, Nat2Z.id. rewrite (conv_all_same _ _ T). cbn [bind].
+    rewrite Kn, Nat2Z.id. rewrite (conv_elt_all_supported _ _ Hsup), (conv_all_same _ _ T). cbn [bind].
     rewrite slice_column_pointwise by (unfold nrows in *; lia).
     unfold overlay. rewrite map_length, seq_length.
     assert (L : List.length (resize (nrows f - off) (default_of (col_type (fr_cols f) c)) pre) = nrows f - off) by apply resize_length.
@@ -826,13 +858,17 @@ Proof.
   assert (P : plan_column (fr_cols f) (nrows f) false (ByIdx (Z.of_nat c)) (col_type (fr_cols f) c) (Z.of_nat off) 0 vs
               = Ok (col_puts c off vs)).
   { unfold plan_column, colarg_name. rewrite (col_name_ok _ _ Hc). cbn [bind Z.eqb].
-    rewrite Z.ltb_irrefl. rewrite (Hu c Hc). unfold convertible. rewrite vtype_eqb_refl. cbn [orb negb].
+    rewrite Z.ltb_irrefl. pose proof (W1 c Hc) as Hsup.
+    unfold elt_has_memtype. rewrite (elt_carrier_supported _ Hsup), Hsup. cbn [negb].
+    assert (Fl : is_float_elt (col_type (fr_cols f) c) = false) by (destruct (col_type (fr_cols f) c); try discriminate; reflexivity).
+    rewrite Fl.
+    rewrite (Hu c Hc). unfold convertible. rewrite vtype_eqb_refl. cbn [orb negb].
     assert (Z0 : (zlen vs =? 0)%Z = false).
     { apply Z.eqb_neq. unfold zlen. destruct vs; [contradiction|cbn; lia]. }
     rewrite Z0.
     assert (E : ((0 <=? Z.of_nat off) && (Z.of_nat off + zlen vs <=? Z.of_nat (nrows f)))%Z = true).
     { rewrite andb_true_iff, !Z.leb_le. unfold zlen. lia. }
-    rewrite E. cbn [negb]. unfold zlen. rewrite Nat2Z.id, firstn_all, (conv_all_same _ _ Ht). cbn. now rewrite Nat2Z.id. }
+    rewrite E. cbn [negb]. unfold zlen. rewrite Nat2Z.id, firstn_all, (conv_all_gen_same false _ _ Ht). cbn. now rewrite Nat2Z.id. }
   subst o. cbn [fstep]. rewrite Hro.
   destruct (write_effect s f (fun f0 => plan_column (fr_cols f0) (nrows f0) false (ByIdx (Z.of_nat c))
               (col_type (fr_cols f) c) (Z.of_nat off) 0 vs) _ Hf Hw P) as (f' & H1 & H2 & H3 & H4 & H5).
@@ -973,7 +1009,8 @@ Proof.
   assert (P : exists e, plan_column (fr_cols f) (nrows f) (d_ro s) c t off cnt vs = Err e).
   { unfold plan_column. destruct (colarg_name (fr_cols f) c) as [name|e|w] eqn:Ec; cbn [bind].
     - assert (Z0 : (cnt =? 0)%Z = false) by (apply Z.eqb_neq; lia). rewrite Z0.
-      destruct (zlen vs <? cnt)%Z; [eexists; reflexivity|]. destruct (d_ro s); [eexists; reflexivity|].
+      destruct (zlen vs <? cnt)%Z; [eexists; reflexivity|]. destruct (negb (elt_has_memtype t)); [eexists; reflexivity|].
+      destruct (d_ro s); [eexists; reflexivity|].
       assert (B : (off + cnt <=? Z.of_nat (nrows f))%Z = false) by (apply Z.leb_gt; lia).
       destruct (find_col name (fr_cols f)).
       + destruct (negb (convertible _ _)); [eexists; reflexivity|]. rewrite Z0, B, andb_false_r. eexists; reflexivity.
@@ -1002,3 +1039,71 @@ Example spec_example :
   srun [FNew ex_cols; FRows 3; FWRow 1 [VInt32 7; VString "x"]; FRows 1; FRows 3; FRRow 1; FRRow 5] sfresh
   = [Must FDone; Must FDone; Must FDone; Must FDone; Must FDone; Must (FVals [VInt32 0; VString ""]); Reject].
 Proof. reflexivity. Qed.
+
+(** * Further routes: vector overloads of colIndex / colName, narrow element types of the column templates *)
+
+(** colIndex(vector<string>) is colIndex(string) element by element *)
+Theorem col_indices_spec : forall cols names,
+  (forall l, col_indices cols names = Ok l -> Forall2 (fun n i => find_col n cols = Some (Z.to_nat i) /\ (0 <= i)%Z) names l) /\
+  ((exists n, In n names /\ find_col n cols = None) -> col_indices cols names = Err H5EXC).
+Proof.
+  intros cols names. split.
+  - induction names as [|n names IH]; intros l H; cbn in H.
+    + inversion H. constructor.
+    + destruct (find_col n cols) as [c|] eqn:E; [|discriminate].
+      destruct (col_indices cols names) as [l0| |]; cbn in H; try discriminate. inversion H; subst.
+      constructor; [|now apply IH]. rewrite Nat2Z.id. split; [exact E|lia].
+  - induction names as [|n names IH]; intros (x & Hin & Hx); [contradiction|]. cbn.
+    destruct (find_col n cols) as [c|] eqn:E; [|reflexivity].
+    destruct Hin as [->|Hin]; [congruence|]. rewrite IH by eauto. reflexivity.
+Qed.
+
+(** colName(vector<unsigned>) is colName(unsigned) element by element *)
+Theorem col_names_spec : forall cols idxs l,
+  col_names cols idxs = Ok l -> Forall2 (fun i n => col_name cols i = Ok n) idxs l.
+Proof.
+  induction idxs as [|i idxs IH]; intros l H; cbn in H.
+  - inversion H. constructor.
+  - destruct (col_name cols i) as [n| |] eqn:E; cbn in H; try discriminate.
+    destruct (col_names cols idxs) as [l0| |]; cbn in H; try discriminate. inversion H; subst.
+    constructor; auto.
+Qed.
+
+(** writeColumn<T> with a narrow integer T is writeColumn with the 32-bit integer of the same signedness *)
+Theorem write_narrow_is_carrier : forall cols nr ro c t off cnt vs lohi,
+  small_range t = Some lohi ->
+  plan_column cols nr ro c t off cnt vs = plan_column cols nr ro c (elt_carrier t) off cnt vs.
+Proof.
+  intros cols nr ro c t off cnt vs [lo hi] H. unfold plan_column.
+  assert (C : elt_carrier (elt_carrier t) = elt_carrier t).
+  { unfold elt_carrier at 2 3. rewrite H. destruct (lo <? 0)%Z; reflexivity. }
+  assert (F : is_float_elt t = false).
+  { destruct t; cbn in *; try discriminate.
+    destruct (String.eqb name "Float") eqn:E; [|reflexivity]. apply String.eqb_eq in E. subst. discriminate. }
+  assert (F2 : is_float_elt (elt_carrier t) = false).
+  { unfold elt_carrier. rewrite H. destruct (lo <? 0)%Z; reflexivity. }
+  unfold elt_has_memtype. now rewrite C, F, F2.
+Qed.
+
+(** a narrow integer read back through readColumn<T> from a column that holds it is itself; whatever
+    is read lies in T's range *)
+Theorem conv_elt_narrow_range : forall t lo hi v v',
+  small_range t = Some (lo, hi) -> (lo <= hi)%Z -> conv_elt t v = Ok v' ->
+  exists z, v' = mk_int (elt_carrier t) z /\ (lo <= z <= hi)%Z.
+Proof.
+  intros t lo hi v v' H Hle Hc. unfold conv_elt in Hc. rewrite H in Hc.
+  destruct (conv (elt_carrier t) v) as [w| |]; cbn in Hc; try discriminate.
+  destruct (int_of w) as [z|]; [|discriminate]. inversion Hc; subst. eexists. split; [reflexivity|].
+  destruct (Z.ltb_spec z lo); [lia|]. destruct (Z.ltb_spec hi z); lia.
+Qed.
+
+Theorem conv_elt_narrow_id : forall t lo hi z,
+  small_range t = Some (lo, hi) -> (lo <= z <= hi)%Z ->
+  conv_elt t (mk_int (elt_carrier t) z) = Ok (mk_int (elt_carrier t) z).
+Proof.
+  intros t lo hi z H Hz. unfold conv_elt. rewrite H.
+  assert (C : elt_carrier t = TInt32 \/ elt_carrier t = TUInt32).
+  { unfold elt_carrier. rewrite H. destruct (lo <? 0)%Z; auto. }
+  destruct C as [C|C]; rewrite C; cbn [mk_int]; unfold conv, conv_gen; cbn [type_of vtype_eqb bind int_of mk_int];
+    destruct (Z.ltb_spec z lo); try lia; destruct (Z.ltb_spec hi z); try lia; reflexivity.
+Qed.
